@@ -339,6 +339,12 @@ def rule_R35_evaluated(ctx, prj):
         ("adjacent newlines", [3, 4], [0, 2, 3, 4, 5, 6]),
         ("newline first", [0], [0, 1, 2]),
     ]
+    if ctx.tier == "thorough":
+        # small-scope exhaustive: every newline table with up to three newlines among the offsets 0..6, a token at every offset 0..8
+        import itertools
+        for k in range(0, 4):
+            for nls in itertools.combinations(range(7), k):
+                scenarios.append((f"newlines at {list(nls)}" if nls else "no newline", list(nls), list(range(9))))
     bad3 = bad5 = None
     n = 0
     for name, nls, offs in scenarios:
@@ -352,11 +358,11 @@ def rule_R35_evaluated(ctx, prj):
                 msg = (f"text with newlines at offsets {nls}: the token at offset {o} is placed at line {line}, column {col}; "
                        f"required line {want[0]}, column {want[1]}")
                 if o in nls:
-                    bad5 = bad5 or (name, msg + " (a token that starts at a newline's offset belongs to the line that newline ends)")
+                    bad5 = bad5 or (name if nls else "no newline", msg + " (a token that starts at a newline's offset belongs to the line that newline ends)")
                 else:
                     bad3 = bad3 or (name, msg + " (line = newlines before it + 1, column = offset - offset after the preceding newline + 1)")
     if bad3:
-        ctx.viol("R3", "lex/column" if bad3[0] != "no newline" else "lex/branches-disagree", fi.site(), bad3[1])
+        ctx.viol("R3", "lex/column" if not bad3[0].startswith("no newline") else "lex/branches-disagree", fi.site(), bad3[1])
     else:
         ctx.ok("R3", fi.site(), f"lex: position formula agrees with the specification on {n} (newline table, offset) points: interior and boundary of every piece, with and without newlines")
     if bad5:
